@@ -109,8 +109,9 @@ class Ctx:
                 cmd = [exe, sub, "--seed", str(self.seed), "--start", str(a), "--count", str(n),
                        "--workdir", wd, "--progress", prog] + (["--thorough"] if self.tier == "thorough" else []) + list(args)
                 try:
+                    # wall-clock watchdog (inconclusive when it fires): generous per case, but bounded for a whole chunk
                     p = subprocess.run(cmd, stdout=subprocess.PIPE, stderr=subprocess.PIPE, env=env,
-                                       timeout=timeout * max(1, n), errors="replace")
+                                       timeout=min(timeout * max(1, n), max(90, 3 * timeout + 2 * n)), errors="replace")
                     rc, so, se, hung = p.returncode, p.stdout, p.stderr, False
                 except subprocess.TimeoutExpired as e:
                     rc, hung = None, True
